@@ -535,3 +535,10 @@ B("C19", BASE, "                inds = jnp.where(\n                    jnp.asarr
 # copy protocol: rebuild-by-constructor reducers, process-wide reducer registrations
 B("C18", BASE, "    def __exit__(self, exc_type, exc_value, exc_traceback):\n        pass\n", "    def __exit__(self, exc_type, exc_value, exc_traceback):\n        pass\n\n    def __reduce__(self):\n        return (View, (self.base, self._nodes_in_view, self._edges_in_view))\n", "R-C18-protocol")
 B("C18", JU, 'Func = TypeVar("Func", bound=Callable)\n', 'Func = TypeVar("Func", bound=Callable)\nimport copyreg\nimport numpy as np\ncopyreg.pickle(type(jnp.zeros(())), lambda x: (np.asarray, (np.asarray(x),)))\n', "R-C18-protocol")
+# one edge row per requested pair
+for _p, _r in (("C20", "R-C20-rows"), ("C09", "R-C09-edgerows")):
+    B(_p, NW, "                post_nodes.reset_index(drop=True),\n", "                post_nodes,\n", _r)
+    B(_p, NW, "        post_nodes = post_nodes[[\"global_comp_index\"]]", "        post_nodes = post_nodes[[\"global_branch_index\"]]", _r)
+    B(_p, NW, "        index = len(self.base.edges)", "        index = len(self.edges)", _r)
+    P(_p, NW, "        pre_nodes = pre_nodes[[\"global_comp_index\"]]\n        pre_nodes.columns = [\"pre_global_comp_index\"]", "        pre_nodes = pre_nodes[[\"global_comp_index\"]].rename(\n            columns={\"global_comp_index\": \"pre_global_comp_index\"}\n        )")
+B("C09", CU, "    area = 2 * pi * radius * length", "    area = pi * radius * length", "R-C09-area")
